@@ -300,7 +300,10 @@ def run_shard(spec, rec):
         feed(G.SigGen(rng, keys).multisig(spec["n"]), 150)
     elif kind == "lock_rand":
         feed(G.locktime_cases(rng, spec["n_lock"]), 2500)
+        feed(G.locktime_eval_cases(rng, spec["n_lock"] // 4), 1500)
         feed(G.random_scripts(rng, spec["n_rand"]), 4000)
+        feed(G.cond_tree_cases(rng, spec["n_rand"] // 2), 2500)
+        feed(G.arith_chain_cases(rng, spec["n_rand"] // 2), 2500)
         feed(G.witness_dispatch_cases(rng), 1500)
 
 
